@@ -449,7 +449,8 @@ def boundary_resources():
                             "hostinfo": o_join(txt, port), "uri_host": uh,
                             "path": ["p"], "query": ["q"]})
     for name in ["a/b", "a?b", "a#b", "a@b", "a%41", "a%", "a:b", "[a", "a]", "a b", "a\x00b", "a\tb",
-                 "é", "a.b", "~", "a!$&'()*+,;=b", "::x", "[::x]", "1.2.3.256", "1..2.3"]:
+                 "é", "a.b", "~", "a!$&'()*+,;=b", "::x", "[::x]", "1.2.3.256", "1..2.3",
+                 "[::1", "::1]", "[::1]]", "[[::1]", "[fe80::1%eth0"]:
         out.append({"kind": "R", "host_kind": "name", "scheme": "coap",
                     "hostinfo": o_join(o_reg_name(name), 7), "uri_host": name,
                     "path": ["x"], "query": []})
@@ -574,8 +575,8 @@ def gen_structured_text(rng):
         ui_txt = rng.choice(["u@", "u:p@", ":p@", "u:@", "a@b@"])
         defects.append(("MalformedUrlError", "user info"))
     elif k < 0.09:
-        ui_txt = rng.choice(["@", ":@"])      # empty user info: tolerated by the implementation
-        unmodelled = True
+        ui_txt = rng.choice(["@", ":@"])      # empty user info is user info
+        defects.append(("MalformedUrlError", "user info"))
     # path
     k = rng.random()
     path = []
